@@ -144,6 +144,14 @@ impl Generator {
         #[cfg(kaspar030_laze_verif)]
         crate::verif_oracle::fault("after_load");
         std::fs::create_dir_all(&self.build_dir)?;
+
+        // the ninja file is about to be rewritten: a cache left by an earlier run must
+        // not vouch for it if this run fails or is interrupted
+        match std::fs::remove_file(GenerateResult::cache_file(&self.build_dir, &self.mode)) {
+            Err(e) if e.kind() != std::io::ErrorKind::NotFound => return Err(e.into()),
+            _ => (),
+        }
+
         let mut ninja_build_file = std::io::BufWriter::new(std::fs::File::create(
             get_ninja_build_file(&self.build_dir, &self.mode).as_path(),
         )?);
@@ -300,6 +308,10 @@ impl Generator {
             num_built,
             start.elapsed()
         );
+
+        // the cache may only exist once the ninja file is complete on disk
+        ninja_build_file.flush()?;
+        drop(ninja_build_file);
 
         let build_dir = self.build_dir.clone();
         let result = GenerateResult::new(self, builds, treestate);
